@@ -203,6 +203,9 @@ pub async fn run_writer(
     key: u64,
     plan: WriterPlan,
     mut rng: Prng,
+    // when present, the end action waits until the local reader has received everything it
+    // expects (uTP has no half-close: a FIN ends both directions)
+    gate: Option<tokio::sync::oneshot::Receiver<()>>,
 ) -> WriterOutcome {
     let clock = ctx.log.clock.clone();
     let mut out = WriterOutcome {
@@ -259,6 +262,9 @@ pub async fn run_writer(
         }
     }
     if out.error.is_none() {
+        if let Some(g) = gate {
+            let _ = g.await;
+        }
         match plan.end {
             WriterEnd::Shutdown => {
                 let upto = out.accepted;
@@ -364,6 +370,8 @@ pub async fn run_reader(
     key: u64,
     plan: ReaderPlan,
     mut rng: Prng,
+    // fired once `expect` bytes have been read
+    mut done: Option<(usize, tokio::sync::oneshot::Sender<()>)>,
 ) -> ReaderOutcome {
     let clock = ctx.log.clock.clone();
     let mut out = ReaderOutcome {
@@ -379,6 +387,11 @@ pub async fn run_reader(
     let mut stalled = false;
     let mut buf = Vec::new();
     loop {
+        if matches!(&done, Some((n, _)) if out.read >= *n) {
+            if let Some((_, tx)) = done.take() {
+                let _ = tx.send(());
+            }
+        }
         match plan.stop {
             ReaderStop::DropAfter(n) if out.read >= n => {
                 api_drop_reader(&ctx, r);
